@@ -55,9 +55,7 @@ class Model(object):
                 return                       # late reply: discarded, no callbacks
             self.ready = True
             self.is_exc, self.value = payload
-            for name in self.cbs:
-                self.cblog.append(name)
-            self.cbs = []
+            self._drain()
         else:
             self.now += payload             # the handler runs (virtual sleep)
 
@@ -96,11 +94,19 @@ class Model(object):
             self._process(self.inbox.pop(0))
         return "ok" if self.ready else "timeout"
 
-    def add_callback(self, name):
+    def add_callback(self, name, nested=False):
+        self.cbs.append((name, nested))
         if self.ready:
+            self._drain()
+
+    def _drain(self):
+        # registration order, each exactly once; a callback registered from inside a running callback queues behind the
+        # ones registered before it and has run by the time the registering call returns
+        while self.cbs:
+            name, nested = self.cbs.pop(0)
             self.cblog.append(name)
-        else:
-            self.cbs.append(name)
+            if nested:
+                self.cbs.append((name + "/inner", False))
 
 
 class Peer(object):
@@ -207,6 +213,13 @@ def run_case(case):
                 elif op == "callback":
                     ar.add_callback(lambda res, arg=arg: cblog.append(arg))
                     r = ("ok", None)
+                elif op == "callback_nested":
+                    # a callback that registers a further callback on the same result while it runs
+                    def outer(res, arg=arg):
+                        cblog.append(arg)
+                        res.add_callback(lambda r2, arg=arg: cblog.append(arg + "/inner"))
+                    ar.add_callback(outer)
+                    r = ("ok", None)
                 elif op == "poll":
                     conn.poll_all(0)          # the owner serves the connection for unrelated reasons
                     r = ("ok", None)
@@ -264,6 +277,9 @@ def model_run(case):
         elif op == "callback":
             m.add_callback(arg)
             r = ("ok", None)
+        elif op == "callback_nested":
+            m.add_callback(arg, nested=True)
+            r = ("ok", None)
         elif op == "poll":
             m.serve_one_available()
             r = ("ok", None)
@@ -296,7 +312,7 @@ def gen_case(rng, idx):
     can_hang = not finite and not has_reply
     for j in range(rng.randrange(1, 9)):
         t = round(t + rng.choice([0.0, 0.1, 0.1, 0.4, 1.0, 10.0, 31.0]), 6)
-        op = rng.choice(["ready", "ready", "error", "expired", "wait", "value", "callback", "callback", "poll", "poll"])
+        op = rng.choice(["ready", "ready", "error", "expired", "wait", "value", "callback", "callback", "callback_nested", "poll", "poll"])
         if can_hang and op in ("wait", "value"):
             op = "ready"
         events.append((t, op, "cb%d" % j))
@@ -310,7 +326,7 @@ def boundary_cases():
             for off in (-EPS, 0.0, EPS):
                 for exc in (False, True):
                     for first in ("wait", "value", "ready"):
-                        ev = [(0.0, "callback", "early"), (0.0, first, "x"), (T + 1.0, "ready", "x"), (T + 1.0, "poll", "x"), (T + 1.0, "expired", "x"), (T + 1.0, "callback", "late"), (T + 1.5, "poll", "x"),
+                        ev = [(0.0, "callback_nested", "early0"), (0.0, "callback", "early"), (0.0, first, "x"), (T + 1.0, "ready", "x"), (T + 1.0, "poll", "x"), (T + 1.0, "expired", "x"), (T + 1.0, "callback", "late"), (T + 1.5, "poll", "x"),
                               (T + 2.0, "value", "x"), (T + 2.0, "error", "x")]
                         out.append(dict(via=via, timeout=T, t0=0.0, script=[(T + off, "reply", (exc, ("b", T)))], events=ev if via != "sync" else []))
     return out
